@@ -670,7 +670,9 @@ def check_corruption(c):
         stream = b"".join(frame(valid) for _ in range(c["n_before"]))
         if fault == "flip-frame-type":
             if c["kind"] == "rs":
-                bad = bytes([0x07]) + struct.pack("!L", len(valid))[1:] + valid      # reserved frame-type bits set in the length prefix
+                # a reserved frame type (3..7) in the first octet of the length prefix (1 and 2 are RawSocket PING / PONG: legal frames the statement
+                # says nothing about - not generated)
+                bad = bytes([(0x07, 0x03, 0x04, 0x05, 0x06)[(c["n_before"] + c["split"]) % 5]]) + struct.pack("!L", len(valid))[1:] + valid
             else:
                 bad = frame(valid, binary_flag=not wamptx.binary(ser))
         elif fault == "garbage-payload":
